@@ -153,7 +153,7 @@ let direct (id : string) (_variant : int) (max : int) (qs : value list) (ops : v
       let expect = match o with
         | OOpened (true, _) -> 0 | OOpened (false, true) -> 2 | OOpened (false, false) -> 1
         | OOpenErr ECancel -> 3 | OOpenErr EDeadline -> 4 | OOpenErr EOther -> 5 | _ -> -1 in
-      emit [nn expect + 1];
+      emit [nn expect];
       if expect <> as_int status then
         diff (Printf.sprintf "op %d: open status model=%d impl=%d (0 hit,1 miss,2 bypass,3-5 error)" !opno expect (as_int status));
       let id = !niter in
